@@ -20,17 +20,22 @@ inductive ShapeErr where
   | castNotImpl   -- "cast to … not implemented" (no primitive caster, e.g. for null)
   deriving DecidableEq, Repr
 
-/-- `bestUnionTag(in, out)` -/
+/-- index of the first member satisfying `p` -/
+def Tys.findIdx (p : Ty → Bool) : Tys → Option Nat
+  | .nil => none
+  | .cons t r => if p t then some 0 else (Tys.findIdx p r).map (· + 1)
+
+/-- `bestUnionTag(in, out)`: the member that is `in` itself, else the one that is `in`'s
+    underlying type, else the first one with the same underlying type. -/
 def bestUnionTag (inT out : Ty) : Option Nat :=
   match out.under with
   | .union ms =>
-    let l := ms.toList
-    match l.idxOf? inT with
+    match ms.findIdx (· == inT) with
     | some i => some i
     | none =>
-      match l.idxOf? inT.under with
+      match ms.findIdx (· == inT.under) with
       | some i => some i
-      | none => l.findIdx? fun t => t.under == inT.under
+      | none => ms.findIdx fun t => t.under == inT.under
   | _ => none
 
 def sortFieldsByName : List (Name × Ty) → List (Name × Ty)
